@@ -59,6 +59,12 @@ structure SafeAt (f : Nat) : Prop where
     (activate f c clo st).sat fun r =>
       r.1 = c ∧ GoodClo r.2.1 ∧ r.2.2.emptyClones = st.emptyClones
 
+theorem Res.sat_mono {α : Type} {r : Res α} {P Q : α → Prop} (h : r.sat P) (hPQ : ∀ a, P a → Q a) :
+    r.sat Q := by
+  cases r with
+  | ok a => exact hPQ a h
+  | fail o => exact h
+
 theorem safe_all (f : Nat) : SafeAt f := by
   induction f with
   | zero =>
@@ -77,26 +83,19 @@ theorem safe_all (f : Nat) : SafeAt f := by
         | peek s =>
           simp only [construct, if_true]
           exact ih.construct rest true cs st hrest rfl hG
-        | call s k =>
+        | call s vids =>
           simp only [construct, if_true]
-          have hw := ih.windows k false cs st hG
-          revert hw
-          cases Carrier.windows f k false cs st with
-          | fail o => intro hw; simpa [Res.sat] using hw
-          | ok r =>
-            obtain ⟨c', cs', st'⟩ := r
-            intro hw
+          have hw := ih.windows vids.length false cs st hG
+          split
+          · rename_i c' cs' st' heq
+            rw [heq] at hw
             simp only [Res.sat] at hw
             obtain ⟨_, hG', hec⟩ := hw
-            have hc := ih.construct rest true cs' st' hrest rfl hG'
-            revert hc
-            simp only []
-            cases Carrier.construct f rest true cs' st' with
-            | fail o => intro hc; simpa [Res.sat] using hc
-            | ok r2 =>
-              intro hc
-              simp only [Res.sat] at hc ⊢
-              exact ⟨hc.1, hc.2.1, hc.2.2.trans hec⟩
+            exact Res.sat_mono (ih.construct rest true cs' st' hrest rfl hG')
+              fun r h => ⟨h.1, h.2.1, h.2.2.trans hec⟩
+          · rename_i o heq
+            rw [heq] at hw
+            exact hw
         | closure own body =>
           simp only [Item.allOwn, Bool.and_eq_true] at hit
           obtain ⟨ho, hb⟩ := hit
@@ -110,85 +109,63 @@ theorem safe_all (f : Nat) : SafeAt f := by
       | succ k =>
         simp only [windows]
         have hw := ih.window c cs st hG
-        revert hw
-        cases Carrier.window f c cs st with
-        | fail o => intro hw; simpa [Res.sat] using hw
-        | ok r =>
-          obtain ⟨c', cs', st'⟩ := r
-          intro hw
+        split
+        · rename_i c' cs' st' heq
+          rw [heq] at hw
           simp only [Res.sat] at hw
           obtain ⟨hc', hG', hec⟩ := hw
-          simp only at hc'
           subst hc'
-          have h2 := ih.windows k c' cs' st' hG'
-          revert h2
-          simp only []
-          cases Carrier.windows f k c' cs' st' with
-          | fail o => intro h2; simpa [Res.sat] using h2
-          | ok r2 =>
-            intro h2
-            simp only [Res.sat] at h2 ⊢
-            exact ⟨h2.1, h2.2.1, h2.2.2.trans hec⟩
+          exact Res.sat_mono (ih.windows k c' cs' st' hG') fun r h => ⟨h.1, h.2.1, h.2.2.trans hec⟩
+        · rename_i o heq
+          rw [heq] at hw
+          exact hw
     · -- window
       intro c cs st hG
       simp only [window]
-      cases hs : st.sched with
-      | nil => simp [Res.sat, hG]
-      | cons n s =>
-        simp only []
-        cases hn : cs[n]? with
-        | none => simp [Res.sat, hG]
-        | some clo =>
-          simp only []
+      split
+      · simp [Res.sat, hG]
+      · rename_i n s hs
+        split
+        · simp [Res.sat, hG]
+        · rename_i clo hn
           have hclo : GoodClo clo := hG clo (List.mem_of_getElem? hn)
           have ha := ih.activate c clo { st with sched := s } hclo
-          revert ha
-          cases Carrier.activate f c clo { st with sched := s } with
-          | fail o => intro ha; simpa [Res.sat] using ha
-          | ok r =>
-            obtain ⟨c', clo', st'⟩ := r
-            intro ha
+          split
+          · rename_i c' clo' st' heq
+            rw [heq] at ha
             simp only [Res.sat] at ha
             obtain ⟨hc', hclo', hec⟩ := ha
-            simp only at hc' hclo' hec
             subst hc'
-            have h2 := ih.window c' (cs.set n clo') st' (good_set n hG hclo')
-            revert h2
-            simp only []
-            cases Carrier.window f c' (cs.set n clo') st' with
-            | fail o => intro h2; simpa [Res.sat] using h2
-            | ok r2 =>
-              intro h2
-              simp only [Res.sat] at h2 ⊢
-              exact ⟨h2.1, h2.2.1, h2.2.2.trans hec⟩
+            exact Res.sat_mono (ih.window c' (cs.set n clo') st' (good_set n hG hclo'))
+              fun r h => ⟨h.1, h.2.1, h.2.2.trans hec⟩
+          · rename_i o heq
+            rw [heq] at ha
+            exact ha
     · -- activate
       intro c clo st hclo
       obtain ⟨ho, hf, hb⟩ := hclo
       simp only [activate, ho, hf, if_true]
       have hc := ih.construct clo.body true [] st hb rfl good_nil
-      revert hc
-      cases Carrier.construct f clo.body true [] st with
-      | fail o => intro hc; simpa [Res.sat] using hc
-      | ok r =>
-        obtain ⟨cell, inner, st'⟩ := r
-        intro hc
+      split
+      · rename_i cell inner st' heq
+        rw [heq] at hc
         simp only [Res.sat] at hc
         obtain ⟨hcell, hGi, hec⟩ := hc
-        simp only at hcell hGi hec
         subst hcell
         have hw := ih.window true inner st' hGi
-        revert hw
-        simp only []
-        cases Carrier.window f true inner st' with
-        | fail o => intro hw; simpa [Res.sat] using hw
-        | ok r2 =>
-          obtain ⟨cell', inner', st''⟩ := r2
-          intro hw
+        split
+        · rename_i cell' inner' st'' heq2
+          rw [heq2] at hw
           simp only [Res.sat] at hw ⊢
           obtain ⟨hcell', _, hec'⟩ := hw
-          simp only at hcell' hec'
           subst hcell'
-          exact ⟨rfl, ⟨ho, rfl, hb⟩, hec'.trans hec⟩
+          exact ⟨by simp, ⟨rfl, rfl, hb⟩, hec'.trans hec⟩
+        · rename_i o heq2
+          rw [heq2] at hw
+          exact hw
+      · rename_i o heq
+        rw [heq] at hc
+        exact hc
 
 /-- **No `expect("query was not returned")`, no clone of an empty carrier**: a plan in which every
 closure owns its clone ends `ok` (or the model's fuel was too small) under every schedule. -/
@@ -196,25 +173,217 @@ theorem run_safe (p : Plan) (h : p.allOwn = true) (sched : Schedule) (fuel : Nat
     run p sched fuel = .ok ∨ run p sched fuel = .outOfFuel := by
   unfold run
   have hc := (safe_all fuel).construct p.items true [] ⟨sched, 0⟩ h rfl good_nil
-  revert hc
-  cases construct fuel p.items true [] ⟨sched, 0⟩ with
-  | fail o => intro hc; right; simpa [Res.sat] using hc
-  | ok r =>
-    obtain ⟨c, cs, st⟩ := r
-    intro hc
+  split
+  · rename_i c cs st heq
+    rw [heq] at hc
     simp only [Res.sat] at hc
     obtain ⟨_, hG, hec⟩ := hc
-    simp only at hG hec
     have hw := (safe_all fuel).window c cs st hG
-    revert hw
-    simp only []
-    cases window fuel c cs st with
-    | fail o => intro hw; right; simpa [Res.sat] using hw
-    | ok r2 =>
-      intro hw
+    split
+    · rename_i c' cs' st' heq2
+      rw [heq2] at hw
       simp only [Res.sat] at hw
       left
       simp [hw.2.2, hec]
+    · rename_i o heq2
+      rw [heq2] at hw
+      right
+      exact hw
+  · rename_i o heq
+    rw [heq] at hc
+    right
+    exact hc
+
+/-! ### fuel adequacy -/
+
+/-- the sub-run did not run out of fuel, and a returned state satisfies `post` -/
+def Res.fine {α : Type} (r : Res α) (post : α → Prop) : Prop :=
+  match r with
+  | .ok a => post a
+  | .fail o => o ≠ .outOfFuel
+
+theorem Res.fine_mono {α : Type} {r : Res α} {P Q : α → Prop} (h : r.fine P) (hPQ : ∀ a, P a → Q a) :
+    r.fine Q := by
+  cases r with
+  | ok a => exact hPQ a h
+  | fail o => exact h
+
+/-- every closure body of `cs` is small compared with `w` -/
+def Bounded (w : Nat) (cs : List Clo) : Prop := ∀ clo ∈ cs, sizeL clo.body + 2 ≤ w
+
+theorem Bounded.mono {w w' : Nat} {cs : List Clo} (h : Bounded w cs) (hw : w ≤ w') : Bounded w' cs :=
+  fun clo hc => Nat.le_trans (h clo hc) hw
+
+theorem bounded_nil (w : Nat) : Bounded w [] := by intro clo h; cases h
+
+theorem bounded_snoc {w : Nat} {cs : List Clo} {clo : Clo} (h : Bounded w cs)
+    (hc : sizeL clo.body + 2 ≤ w) : Bounded w (cs ++ [clo]) := by
+  intro x hx
+  rcases List.mem_append.mp hx with hx | hx
+  · exact h x hx
+  · simp at hx; subst hx; exact hc
+
+theorem bounded_set {w : Nat} {cs : List Clo} {clo : Clo} (n : Nat) (h : Bounded w cs)
+    (hc : sizeL clo.body + 2 ≤ w) : Bounded w (cs.set n clo) := by
+  intro x hx
+  rcases List.mem_or_eq_of_mem_set hx with hx | hx
+  · exact h x hx
+  · subst hx; exact hc
+
+theorem sizeL_pos (l : List Item) : 1 ≤ sizeL l := by
+  cases l with
+  | nil => simp [sizeL]
+  | cons i is => have := sizeL_pos is; simp only [sizeL]; omega
+
+structure FuelAt (f : Nat) : Prop where
+  construct : ∀ items c cs st w, Bounded w cs → st.sched.length + sizeL items + w ≤ f →
+    (construct f items c cs st).fine fun r =>
+      r.2.2.sched.length ≤ st.sched.length ∧ Bounded (max w (sizeL items)) r.2.1
+  windows : ∀ k c cs st w, Bounded w cs → st.sched.length + w + k + 1 ≤ f →
+    (windows f k c cs st).fine fun r => r.2.2.sched.length ≤ st.sched.length ∧ Bounded w r.2.1
+  window : ∀ c cs st w, Bounded w cs → st.sched.length + w + 1 ≤ f →
+    (window f c cs st).fine fun r => r.2.2.sched.length ≤ st.sched.length ∧ Bounded w r.2.1
+  activate : ∀ c clo st w, sizeL clo.body + 2 ≤ w → st.sched.length + w ≤ f →
+    (activate f c clo st).fine fun r =>
+      r.2.2.sched.length ≤ st.sched.length ∧ r.2.1.body = clo.body
+
+theorem fuel_all (f : Nat) : FuelAt f := by
+  induction f with
+  | zero =>
+    refine ⟨?_, ?_, ?_, ?_⟩
+    · intro items c cs st w _ h; have := sizeL_pos items; omega
+    · intro k c cs st w _ h; omega
+    · intro c cs st w _ h; omega
+    · intro c clo st w h1 h2; omega
+  | succ f ih =>
+    refine ⟨?_, ?_, ?_, ?_⟩
+    · -- construct
+      intro items c cs st w hB hf
+      cases items with
+      | nil => simp only [construct, Res.fine]; exact ⟨Nat.le_refl _, hB.mono (Nat.le_max_left _ _)⟩
+      | cons it rest =>
+        have hpos := sizeL_pos rest
+        cases it with
+        | peek s =>
+          simp only [sizeL, Item.size] at hf
+          simp only [construct]
+          split
+          · refine Res.fine_mono (ih.construct rest c cs st w hB (by omega)) fun r h => ⟨h.1, ?_⟩
+            exact h.2.mono (by simp only [sizeL, Item.size]; omega)
+          · simp [Res.fine]
+        | call s vids =>
+          simp only [sizeL, Item.size] at hf
+          simp only [construct]
+          split
+          · have hw := ih.windows vids.length false cs st w hB (by omega)
+            split
+            · rename_i c' cs' st' heq
+              rw [heq] at hw
+              simp only [Res.fine] at hw
+              obtain ⟨hL, hB'⟩ := hw
+              refine Res.fine_mono (ih.construct rest true cs' st' w hB' (by omega)) fun r h =>
+                ⟨Nat.le_trans h.1 hL, ?_⟩
+              exact h.2.mono (by simp only [sizeL, Item.size]; omega)
+            · rename_i o heq
+              rw [heq] at hw
+              exact hw
+          · simp [Res.fine]
+        | closure own body =>
+          simp only [sizeL, Item.size] at hf
+          simp only [construct]
+          have hB' : Bounded (max w (sizeL body + 2)) (cs ++ [⟨own, c, body⟩]) :=
+            bounded_snoc (hB.mono (Nat.le_max_left _ _)) (Nat.le_max_right _ _)
+          have h := ih.construct rest c (cs ++ [⟨own, c, body⟩])
+            (if own && !c then { st with emptyClones := st.emptyClones + 1 } else st)
+            (max w (sizeL body + 2)) hB' (by split <;> (try simp only []) <;> omega)
+          refine Res.fine_mono h fun r h2 => ⟨?_, ?_⟩
+          · have := h2.1; split at this <;> simpa using this
+          · exact h2.2.mono (by simp only [sizeL, Item.size]; omega)
+    · -- windows
+      intro k c cs st w hB hf
+      cases k with
+      | zero => simp only [windows, Res.fine]; exact ⟨Nat.le_refl _, hB⟩
+      | succ k =>
+        simp only [windows]
+        have hw := ih.window c cs st w hB (by omega)
+        split
+        · rename_i c' cs' st' heq
+          rw [heq] at hw
+          simp only [Res.fine] at hw
+          obtain ⟨hL, hB'⟩ := hw
+          exact Res.fine_mono (ih.windows k c' cs' st' w hB' (by omega)) fun r h =>
+            ⟨Nat.le_trans h.1 hL, h.2⟩
+        · rename_i o heq
+          rw [heq] at hw
+          exact hw
+    · -- window
+      intro c cs st w hB hf
+      simp only [window]
+      split
+      · simp only [Res.fine]; exact ⟨Nat.le_refl _, hB⟩
+      · rename_i n s hs
+        rw [hs] at hf
+        simp only [List.length_cons] at hf
+        split
+        · simp only [Res.fine, hs, List.length_cons]; exact ⟨by omega, hB⟩
+        · rename_i clo hn
+          have hclo : sizeL clo.body + 2 ≤ w := hB clo (List.mem_of_getElem? hn)
+          have ha := ih.activate c clo { st with sched := s } w hclo (by simp only []; omega)
+          split
+          · rename_i c' clo' st' heq
+            rw [heq] at ha
+            simp only [Res.fine] at ha
+            obtain ⟨hL, hbody⟩ := ha
+            have hB' : Bounded w (cs.set n clo') := bounded_set n hB (by rw [hbody]; exact hclo)
+            refine Res.fine_mono (ih.window c' (cs.set n clo') st' w hB' (by omega)) fun r h =>
+              ⟨?_, h.2⟩
+            rw [hs]; simp only [List.length_cons]; omega
+          · rename_i o heq
+            rw [heq] at ha
+            exact ha
+    · -- activate
+      intro c clo st w hclo hf
+      simp only [activate]
+      have hc := ih.construct clo.body (if clo.own then clo.full else c) [] st 0 (bounded_nil 0) (by omega)
+      split
+      · rename_i cell inner st' heq
+        rw [heq] at hc
+        simp only [Res.fine] at hc
+        obtain ⟨hL, hBi⟩ := hc
+        have hBi' : Bounded (sizeL clo.body) inner := hBi.mono (by omega)
+        have hw := ih.window cell inner st' (sizeL clo.body) hBi' (by omega)
+        split
+        · rename_i cell' inner' st'' heq2
+          rw [heq2] at hw
+          simp only [Res.fine] at hw
+          split <;> simp only [Res.fine] <;> exact ⟨Nat.le_trans hw.1 hL, by simp⟩
+        · rename_i o heq2
+          rw [heq2] at hw
+          exact hw
+      · rename_i o heq
+        rw [heq] at hc
+        exact hc
+
+/-- With `fuelFor` (or more) fuel no run — of any plan, owning or sharing — runs out of fuel. -/
+theorem fuel_adequate (p : Plan) (sched : Schedule) (fuel : Nat) (h : fuelFor p sched ≤ fuel) :
+    run p sched fuel ≠ .outOfFuel := by
+  unfold fuelFor at h
+  unfold run
+  have hc := (fuel_all fuel).construct p.items true [] ⟨sched, 0⟩ 0 (bounded_nil 0) (by simp only []; omega)
+  split
+  · rename_i c cs st heq
+    rw [heq] at hc
+    simp only [Res.fine] at hc
+    obtain ⟨hL, hB⟩ := hc
+    have hw := (fuel_all fuel).window c cs st (sizeL p.items) (hB.mono (by omega)) (by omega)
+    split
+    · split <;> simp
+    · rename_i o heq2
+      rw [heq2] at hw
+      exact hw
+  · rename_i o heq
+    rw [heq] at hc
+    exact hc
 
 /-! ### every plan `planOf` builds is all-own -/
 
@@ -231,11 +400,11 @@ theorem allOwnL_flatMap {α : Type} (l : List α) (g : α → List Item)
     simp only [List.flatMap_cons, allOwnL_append, Bool.and_eq_true]
     exact ⟨h a (by simp), ih fun b hb => h b (by simp [hb])⟩
 
-theorem allOwnL_replicate_call (n : Nat) (s : Site) (k : Nat) :
-    allOwnL (List.replicate n (.call s k)) = true := by
-  induction n with
-  | zero => simp [allOwnL]
-  | succ n ih => simp [List.replicate_succ, allOwnL, Item.allOwn, ih]
+theorem allOwnL_map_call {α : Type} (l : List α) (s : Site) (g : α → List Vid) :
+    allOwnL (l.map fun a => .call s (g a)) = true := by
+  induction l with
+  | nil => simp [allOwnL]
+  | cons a l ih => simp [allOwnL, Item.allOwn, ih]
 
 theorem filterItems_allOwn (vs : List IRVertex) (vid : Vid) (f : IRFilter) :
     allOwnL (filterItems vs vid f) = true := by
@@ -255,7 +424,8 @@ theorem entryItems_allOwn (vs : List IRVertex) (vid : Vid) : allOwnL (entryItems
     refine ⟨?_, allOwnL_flatMap _ _ fun f _ => localFilterItems_allOwn vs vid f⟩
     split <;> simp [allOwnL, Item.allOwn]
 
-theorem recLevelItems_allOwn (coerce : Bool) (k : Nat) : allOwnL (recLevelItems coerce k) = true := by
+theorem recLevelItems_allOwn (v : Vid) (coerce : Bool) (k : Nat) :
+    allOwnL (recLevelItems v coerce k) = true := by
   induction k with
   | zero => simp [recLevelItems, allOwnL]
   | succ k ih => cases coerce <;> simp [recLevelItems, allOwnL, Item.allOwn, ih]
@@ -318,7 +488,7 @@ theorem foldsItems_allOwn (vs : List IRVertex) : ∀ (fs : List Fold), StagesOwn
     · simp only [allOwnL_append, Bool.and_eq_true]
       refine ⟨⟨⟨importItems_allOwn imports, ?_⟩, allOwnL_flatMap _ _ fun f _ => filterItems_allOwn vs fromVid f⟩, ?_⟩
       · simp [allOwnL, Item.allOwn, compItems_allOwn comp]
-      · simp [allOwnL, Item.allOwn, allOwnL_replicate_call]
+      · simp [allOwnL, Item.allOwn, allOwnL_map_call]
     · exact foldsItems_allOwn vs rest p hp
 end
 
